@@ -1281,18 +1281,24 @@ pub trait BigInteger:
 
             while !e.is_zero() {
                 let z: i64;
+                // Rounding up to the next multiple of 2^w can carry out of the
+                // top limb (then `e` is exactly 2^(64 * NUM_LIMBS)).
+                let mut carry = false;
                 if e.is_odd() {
                     z = signed_mod_reduction(e.as_ref()[0], 1 << w);
                     if z >= 0 {
                         e.sub_with_borrow(&Self::from(z as u64));
                     } else {
-                        e.add_with_carry(&Self::from((-z) as u64));
+                        carry = e.add_with_carry(&Self::from((-z) as u64));
                     }
                 } else {
                     z = 0;
                 }
                 res.push(z);
                 e.div2();
+                if carry {
+                    e.as_mut()[Self::NUM_LIMBS - 1] |= 1 << 63;
+                }
             }
 
             Some(res)
